@@ -20,6 +20,10 @@ def agreement(path, unreferenced_is_violation=True, check_schema=True):
         fp = rg.columns[0].file_path
         if not fp:
             return ("no_file_path", "a row group of _metadata has no file_path")
+        others = sorted({str(c.file_path) for c in rg.columns} - {str(fp)})
+        if others:
+            # (this library follows the first chunk's path only; any other reader follows each chunk's own)
+            return ("chunk_paths", "the column chunks of one row group point at different files: %r and %r" % (fp, others))
         per_file[fp] = per_file.get(fp, 0) + rg.num_rows
     total = sum(rg.num_rows for rg in pf.row_groups)
     if pf.fmd.num_rows != total:
